@@ -1,4 +1,273 @@
-/- Model driver for C12 (stub: not built yet). -/
+/-
+Model driver for C12 (same op lines as harness/c12.cpp).
+
+  m <impl> <tok>...      one index, tokens executed in order, one output token per g/Q/d/DL/DA/R
+     impl: dense_mem_array dense_mmap_array dense_file_array[:f] sparse_mem_array sparse_mmap_array
+           sparse_file_array[:f] sparse_mem_map flex_mem@<min_dense_entries>
+     s<id>:<x>:<y>                 set
+     G<n>:<a>:<b>:<base>:<stride>  n sets, id_i = base + ((a*i+b) mod n)*stride, value = genLoc id i
+     S                             sort
+     g<id>                         get + get_noexcept  -> x:y | nf | <get>!<noexcept>
+     Q<n>:<start>:<step>           n lookups           -> q<found>:<hash>
+     d                             FlexMem::is_dense   -> D1 | D0 | D-
+     DL / DA                       dump_as_list / dump_as_array to a file, then continue on
+                                   sparse_file_array / dense_file_array opened on that file
+                                   -> dl<records>:<hash> | dlerr,  da<records>:<hash> | daerr
+     R                             close and reopen the named file (":f" impls) -> r
+  w <implPos> <implNeg|dummy> <ignore_errors 0|1> <tok>...   NodeLocationsForWays
+     n<id>:<x>:<y>  node;   w<ref>,<ref>,...  way -> x:y,-,...[!]   ("-" undefined, "!" not_found thrown)
+-/
+import Osmium.Model.IndexMap
+import Osmium.Generated.C12Constants
 import Driver.Common
 
-def main : IO Unit := pure ()
+open Osmium.IndexMap Driver
+open Osmium.Generated
+
+def locE : Loc := ⟨C12.locEmpty.1, C12.locEmpty.2⟩
+def locVInit : Loc := ⟨C12.locValueInit.1, C12.locValueInit.2⟩
+def pairE : Nat × Loc := (C12.pairEmpty.1, ⟨C12.pairEmpty.2.1, C12.pairEmpty.2.2⟩)
+def inc : Nat := C12.mmapSizeIncrement
+def bufSize : Nat := C12.dumpBufferBytes / C12.sizeofLocation
+
+/-- Linux: fresh pages of a mapping / a grown file read as zero bytes -/
+def osGrowLoc : Grow Loc := fun a n => a ++ Array.replicate (n - a.size) ⟨0, 0⟩
+def osGrowPair : Grow (Nat × Loc) := fun a n => a ++ Array.replicate (n - a.size) (0, ⟨0, 0⟩)
+
+def iDenseMem : Impl Loc := denseImpl locVInit locE
+def iDenseMmap : Impl Loc := mdenseImpl osGrowLoc inc locE
+def iSparseMem : Impl Loc := sparseImpl bufSize locE
+def iSparseMmap : Impl Loc := msparseImpl osGrowPair inc bufSize locE pairE
+def iSparseMap : Impl Loc := stdMapImpl locE
+def iFlexMem (minDense : Nat) : Impl Loc :=
+  flexImpl ⟨C12.flexBits, minDense, C12.flexDensityFactor⟩ locE
+
+/-- the index under test: one constructor per implementation class -/
+inductive St where
+  | denseMem (a : Array Loc)
+  | denseMmap (file : Bool) (mv : MmapVec Loc)
+  | sparseMem (a : Array (Nat × Loc))
+  | sparseMmap (file : Bool) (mv : MmapVec (Nat × Loc))
+  | sparseMap (t : Std.TreeMap Nat Loc compare)
+  | flex (minDense : Nat) (s : Flex Loc)
+  | dummy
+
+def mkSt (name : String) : Option St :=
+  match name.splitOn "@" with
+  | ["flex_mem", t] => t.toNat?.map fun n => .flex n (iFlexMem n).init
+  | [n] =>
+    match n with
+    | "dense_mem_array" => some (.denseMem iDenseMem.init)
+    | "dense_mmap_array" => some (.denseMmap false iDenseMmap.init)
+    | "dense_file_array" => some (.denseMmap false iDenseMmap.init)
+    | "dense_file_array:f" => some (.denseMmap true iDenseMmap.init)
+    | "sparse_mem_array" => some (.sparseMem iSparseMem.init)
+    | "sparse_mmap_array" => some (.sparseMmap false iSparseMmap.init)
+    | "sparse_file_array" => some (.sparseMmap false iSparseMmap.init)
+    | "sparse_file_array:f" => some (.sparseMmap true iSparseMmap.init)
+    | "sparse_mem_map" => some (.sparseMap iSparseMap.init)
+    | "dummy" => some .dummy
+    | _ => none
+  | _ => none
+
+def St.set : St → Nat → Loc → St
+  | .denseMem a, id, v => .denseMem (iDenseMem.set a id v)
+  | .denseMmap f mv, id, v => .denseMmap f (iDenseMmap.set mv id v)
+  | .sparseMem a, id, v => .sparseMem (iSparseMem.set a id v)
+  | .sparseMmap f mv, id, v => .sparseMmap f (iSparseMmap.set mv id v)
+  | .sparseMap t, id, v => .sparseMap (iSparseMap.set t id v)
+  | .flex n s, id, v => .flex n ((iFlexMem n).set s id v)
+  | .dummy, _, _ => .dummy
+
+def St.sort : St → St
+  | .denseMem a => .denseMem (iDenseMem.sort a)
+  | .denseMmap f mv => .denseMmap f (iDenseMmap.sort mv)
+  | .sparseMem a => .sparseMem (iSparseMem.sort a)
+  | .sparseMmap f mv => .sparseMmap f (iSparseMmap.sort mv)
+  | .sparseMap t => .sparseMap (iSparseMap.sort t)
+  | .flex n s => .flex n ((iFlexMem n).sort s)
+  | .dummy => .dummy
+
+def St.get : St → Nat → Option Loc
+  | .denseMem a, id => iDenseMem.get a id
+  | .denseMmap _ mv, id => iDenseMmap.get mv id
+  | .sparseMem a, id => iSparseMem.get a id
+  | .sparseMmap _ mv, id => iSparseMmap.get mv id
+  | .sparseMap t, id => iSparseMap.get t id
+  | .flex n s, id => (iFlexMem n).get s id
+  | .dummy, _ => none
+
+def St.getNoexcept : St → Nat → Loc
+  | .denseMem a, id => iDenseMem.getNoexcept a id
+  | .denseMmap _ mv, id => iDenseMmap.getNoexcept mv id
+  | .sparseMem a, id => iSparseMem.getNoexcept a id
+  | .sparseMmap _ mv, id => iSparseMmap.getNoexcept mv id
+  | .sparseMap t, id => iSparseMap.getNoexcept t id
+  | .flex n s, id => (iFlexMem n).getNoexcept s id
+  | .dummy, _ => locE
+
+def St.dumpAsList : St → Option (Array (Nat × Loc))
+  | .denseMem a => iDenseMem.dumpAsList a
+  | .denseMmap _ mv => iDenseMmap.dumpAsList mv
+  | .sparseMem a => iSparseMem.dumpAsList a
+  | .sparseMmap _ mv => iSparseMmap.dumpAsList mv
+  | .sparseMap t => iSparseMap.dumpAsList t
+  | .flex n s => (iFlexMem n).dumpAsList s
+  | .dummy => none
+
+def St.dumpAsArray : St → Option (Array Loc)
+  | .denseMem a => iDenseMem.dumpAsArray a
+  | .denseMmap _ mv => iDenseMmap.dumpAsArray mv
+  | .sparseMem a => iSparseMem.dumpAsArray a
+  | .sparseMmap _ mv => iSparseMmap.dumpAsArray mv
+  | .sparseMap t => iSparseMap.dumpAsArray t
+  | .flex n s => (iFlexMem n).dumpAsArray s
+  | .dummy => none
+
+/-- all implementations behind one `Impl` (for the NodeLocationsForWays model) -/
+def anyImpl : Impl Loc where
+  M := St
+  init := .dummy
+  set := St.set
+  sort := St.sort
+  get := St.get
+  getNoexcept := St.getNoexcept
+  dumpAsList := St.dumpAsList
+  dumpAsArray := St.dumpAsArray
+
+def locTok (l : Loc) : String := s!"{l.x}:{l.y}"
+
+/-- value of the generator tokens (same formula in harness/c12.cpp and tools/props/c12.py) -/
+def genLoc (id i : Nat) : Loc :=
+  ⟨Int.ofNat ((id * 7919 + i) % 3600000001) - 1800000000, Int.ofNat (i % 1800000001) - 900000000⟩
+
+/-- the 8 bytes of a Location read as a little-endian uint64 -/
+def locWord (l : Loc) : UInt64 :=
+  UInt64.ofNat ((l.x % 4294967296).toNat + (l.y % 4294967296).toNat * 4294967296)
+
+def hstep (h w : UInt64) : UInt64 := (h ^^^ w) * 1099511628211
+def h0 : UInt64 := 14695981039346656037
+
+def fields (s : String) : List String := (s.drop 1).toString.splitOn ":"
+
+def parseSet (tok : String) : Option (Int × Loc) :=
+  match fields tok with
+  | [i, x, y] => do
+    let i ← i.toInt?
+    let x ← x.toInt?
+    let y ← y.toInt?
+    some (i, ⟨x, y⟩)
+  | _ => none
+
+def nats (tok : String) : Option (List Nat) := (fields tok).mapM String.toNat?
+
+def genLoop (n a b base stride : Nat) : Nat → St → St
+  | 0, m => m
+  | k + 1, m =>
+    let i := n - (k + 1)
+    let id := base + ((a * i + b) % n) * stride
+    genLoop n a b base stride k (m.set id (genLoc id i))
+
+/-- `Q`: `get_noexcept` for every probe id; "found" = the result is not the empty value -/
+def probeLoop (m : St) (start step : Nat) : Nat → Nat → Nat → UInt64 → Nat × UInt64
+  | 0, _, found, h => (found, h)
+  | k + 1, i, found, h =>
+    let l := m.getNoexcept (start + i * step)
+    if l = locE then probeLoop m start step k (i + 1) found (hstep h 0)
+    else probeLoop m start step k (i + 1) (found + 1) (hstep (hstep h 1) (locWord l))
+
+def getTok (m : St) (id : Nat) : String :=
+  let ne := m.getNoexcept id
+  match m.get id with
+  | some l => if ne = l then locTok l else locTok l ++ "!" ++ locTok ne
+  | none => if ne = locE then "nf" else "nf!" ++ locTok ne
+
+def hashList (a : Array (Nat × Loc)) : UInt64 :=
+  a.foldl (fun h p => hstep (hstep h (UInt64.ofNat p.1)) (locWord p.2)) h0
+
+def hashArray (a : Array Loc) : UInt64 := a.foldl (fun h l => hstep h (locWord l)) h0
+
+def tokStep (c : St) (tok : String) : St × Option String :=
+  let bad := (c, some "bad-tok")
+  match tok.front with
+  | 's' =>
+    match parseSet tok with
+    | some (i, l) => (c.set i.toNat l, none)
+    | none => bad
+  | 'G' =>
+    match nats tok with
+    | some [n, a, b, base, stride] => (genLoop n a b base stride n c, none)
+    | _ => bad
+  | 'S' => (c.sort, none)
+  | 'g' =>
+    match nats tok with
+    | some [i] => (c, some (getTok c i))
+    | _ => bad
+  | 'Q' =>
+    match nats tok with
+    | some [n, start, step] =>
+      let r := probeLoop c start step n 0 0 h0
+      (c, some s!"q{r.1}:{r.2}")
+    | _ => bad
+  | 'd' =>
+    match c with
+    | .flex _ s => (c, some (if s.dense then "D1" else "D0"))
+    | _ => (c, some "D-")
+  | 'D' =>
+    if tok == "DL" then
+      match c.dumpAsList with
+      | some recs =>
+        (.sparseMmap true (MmapVec.load osGrowPair inc pairE recs), some s!"dl{recs.size}:{hashList recs}")
+      | none => (c, some "dlerr")
+    else if tok == "DA" then
+      match c.dumpAsArray with
+      | some recs =>
+        (.denseMmap true (MmapVec.load osGrowLoc inc locE recs), some s!"da{recs.size}:{hashArray recs}")
+      | none => (c, some "daerr")
+    else bad
+  | 'R' =>
+    match c with
+    | .denseMmap true mv => (.denseMmap true (MmapVec.load osGrowLoc inc locE mv.data), some "r")
+    | .sparseMmap true mv => (.sparseMmap true (MmapVec.load osGrowPair inc pairE mv.data), some "r")
+    | _ => bad
+  | _ => bad
+
+def runToks (c : St) (toks : List String) : List String :=
+  let rec go (c : St) (toks : List String) (acc : Array String) : Array String :=
+    match toks with
+    | [] => acc
+    | t :: rest =>
+      let r := tokStep c t
+      go r.1 rest (match r.2 with | some o => acc.push o | none => acc)
+  (go c toks #[]).toList
+
+/-! NodeLocationsForWays -/
+
+def wayTok (r : List Loc × Bool) : String :=
+  let body := if r.1.isEmpty then "." else ",".intercalate (r.1.map fun l => if l = locE then "-" else locTok l)
+  if r.2 then body ++ "!" else body
+
+def parseEv (tok : String) : Option (Ev Loc) :=
+  match tok.front with
+  | 'n' => (parseSet tok).map fun p => .node p.1 p.2
+  | 'w' =>
+    let body := (tok.drop 1).toString
+    if body.isEmpty then some (.way [])
+    else ((body.splitOn ",").mapM String.toInt?).map .way
+  | _ => none
+
+def step (line : String) : String :=
+  match words line with
+  | "m" :: impl :: toks =>
+    match mkSt impl with
+    | some c => " ".intercalate ("ok" :: runToks c toks)
+    | none => "bad-impl"
+  | "w" :: ip :: ineg :: ign :: toks =>
+    match mkSt ip, mkSt ineg, toks.mapM parseEv with
+    | some p, some n, some evs =>
+      let s : NLFW anyImpl anyImpl := { pos := p, neg := n, ignoreErrors := ign == "1" }
+      " ".intercalate ("ok" :: (NLFW.run Loc.ok s evs).2.map wayTok)
+    | _, _, _ => "bad-op"
+  | _ => "bad-op"
+
+def main : IO Unit := loopPure step
